@@ -76,7 +76,7 @@ func vh_SRV() {
 		vAssert(!vHeld(&r.mu), "C20.lock-released-around-rpc")
 		vAssert(vAnd(at.term == pre.term, vAnd(at.votedFor == pre.votedFor, at.state == pre.state)), "C02.pre-segment-changes-nothing")
 		vAssert(addr == "addr-"+target, "C02.request-goes-to-target")
-		vAssert(vAnd(r.isVoter(target), r.isVoter("n1")), "C09|C16.only-voters-ask-only-voters")
+		vAssert(vAnd(vRefIsVoter(r.configuration, target), vRefIsVoter(r.configuration, "n1")), "C09|C16.only-voters-ask-only-voters")
 		vAssert(req.CandidateID == "n1", "C02.request-names-sender")
 		vAssert(vAnd(req.LastLogIndex == at.lastIndex, req.LastLogTerm == at.lastTerm), "C07.request-carries-real-last-entry")
 		if req.Prevote {
@@ -159,12 +159,23 @@ func vh_SRV() {
 		vCover("prevote-won")
 		vAssert(prevote, "C16.candidacy-only-after-prevote-quorum")
 		vAssert(2*votes > nv, "C16|C09.prevote-needs-majority-of-voters")
-		vAssert(post.term == mid.term, "C16.prevote-win-does-not-bump-term")
+		// the candidacy may start right here or be left to the election loop; if it starts here the term grows
+		// by exactly one with a durable self-vote, and the real requests carry that term
+		vAssert(vOr(post.term == mid.term, vAnd(post.term == mid.term+1, vAnd(post.votedFor == "n1", vAnd(post.durVote == "n1", post.durTerm == post.term)))), "C02|C08|C16.prevote-win-starts-at-most-one-candidacy")
+		for i := range n.tr.sent {
+			s := &n.tr.sent[i]
+			if s.bg && s.kind == "RV" && !s.rv.Prevote {
+				vAssert(vAnd(s.rv.Term == post.term, vAnd(post.term == mid.term+1, s.rv.CandidateID == "n1")), "C02.vote-request-carries-current-term")
+				vAssert(vAnd(s.rv.LastLogIndex == post.lastIndex, s.rv.LastLogTerm == post.lastTerm), "C07.request-carries-real-last-entry")
+			}
+		}
 	}
 	if post.state != Leader && mid.state == Leader {
 		vCover("leader-stepped-down")
 		vAssert(post.term > mid.term, "C16.leader-steps-down-only-on-higher-term")
 	}
-	vAssert(vImplies(post.term > mid.term, vAnd(resp.Term == post.term, post.state == Follower)), "C08.term-adopted-from-reply")
+	// the term moves only by adopting the reply's higher term, or by the candidacy of a prevote won just now
+	wonPrevote := vAnd(vAnd(prevote, mid.state == PreCandidate), vAnd(post.state == Candidate, post.term == mid.term+1))
+	vAssert(vImplies(post.term > mid.term, vOr(vAnd(resp.Term == post.term, post.state == Follower), wonPrevote)), "C08|C16.term-moves-only-by-higher-reply-or-won-prevote")
 	vCoverIf(post.term > mid.term, "higher-term-seen")
 }
